@@ -21,6 +21,8 @@ SPEC = "path/ShortestPath.tla"
 CFG = "path/ShortestPath.cfg"
 TSPEC = "path/ShortestPathTrace.tla"
 TCFG = "path/ShortestPathTrace.cfg"
+DSPEC = "path/DStarLite.tla"
+DCFG = "path/DStarLite.cfg"
 
 IDS = "[[1,2,3,4,5,6],[-7,1000000007,0,42,3,9223372036854775807]]"
 
@@ -67,13 +69,13 @@ def run(ctx):
             ("all undirected graphs <=4 nodes, weights {-2,0,1,3}", subst(0, 4, False, "{0,2,3,5}", 2),
              "weighted,matrix", "graph,traverse"),
             ("sampled digraphs on 5 nodes, weights {-1,0,1,2}, seed %d" % ctx.seed,
-             subst(5, 5, True, "{0,1,2,3}", 1, mode="sample", seed=ctx.seed, nsamples=3000),
+             subst(5, 5, True, "{0,1,2,3}", 1, mode="sample", seed=ctx.seed, nsamples=2000),
              "weighted,matrix", "graph,traverse"),
             ("sampled undirected graphs on 5 nodes, weights {0,1,2}, seed %d" % ctx.seed,
              subst(5, 5, False, "{0,1,2}", 0, mode="sample", seed=ctx.seed, nsamples=3000),
              "weighted", "graph"),
-            ("all digraphs on 4 nodes, weights {0,1} (shard %d of 32 by seed)" % (ctx.seed % 32),
-             subst(4, 4, True, "{0,1}", 0, shard=ctx.seed % 32, nshards=32), "weighted", "graph"),
+            ("all digraphs on 4 nodes, weights {0,1} (shard %d of 64 by seed)" % (ctx.seed % 64),
+             subst(4, 4, True, "{0,1}", 0, shard=ctx.seed % 64, nshards=64), "weighted", "graph"),
         ]
     for name, sb, kinds, views in plans:
         cases = ctx.gen(SPEC, CFG, subst=sb, name="R2 gen " + name)
@@ -110,20 +112,70 @@ def run(ctx):
             ctx.violation("path:trace-rejected:%s" % gname, st2.get("detail", "")[:600],
                           {"trace": dst, "spec": TSPEC, "cfg": dict(KNOWNCUT="TRUE")})
 
-    # ---- R3 (D* Lite): the documented replanning loop on random worlds, judged by TLC -----------
-    tr = os.path.join(ctx.work, "dstar.ndjson")
-    summ = ctx.record(hb, "path-dstar", tr, ["worlds=%d" % (3000 if thorough else 400), "rounds=10", "maxn=10"],
-                      name="R3 record D* Lite histories")
-    ok, st = ctx.validate(TSPEC, TCFG, tr, subst=dict(KNOWNCUT="FALSE"), name="R3 validate D* Lite histories")
-    if ok:
-        ctx.traces += summ.get("traces", 0)
-    else:
-        keep = os.path.join(ctx.work, "..", "..", "replays", "C13")
-        os.makedirs(keep, exist_ok=True)
-        dst = os.path.abspath(os.path.join(keep, "dstar-seed%d.ndjson" % ctx.seed))
-        shutil.copy(tr, dst)
-        ctx.violation("path:dstar-trace-rejected", st.get("detail", "")[:600],
-                      {"trace": dst, "spec": TSPEC, "cfg": dict(KNOWNCUT="FALSE")})
+    # ---- D* Lite ----------------------------------------------------------------------------
+    # spec->code, tables role: for pseudo-random worlds TLC prints the distance / optimal-edge tables of
+    # the world and of EVERY single and double edge-cost change plus the heuristic it provides; the
+    # harness runs plan -> Step k (0..3) -> UpdateWorld(change) -> Path -> Steps to the goal for every
+    # (start, goal, k, change) and judges by table look-up.
+    def dsub(family, n, gr, gc, heur, mode, seed, nsamples, rounds=0, emit=True,
+             invs="TypeOK HeuristicOK OptProgress EmitTables"):
+        return dict(FAMILY=family, N=n, GR=gr, GC=gc, DELTA=2, HEUR=heur, MODE=mode, SEED=seed, NSAMPLES=nsamples,
+                    ROUNDS=rounds, EMIT="TRUE" if emit else "FALSE", INVS=invs)
+
+    if thorough:
+        ctx.tlc(DSPEC, DCFG, name="R1 DStarLite: heuristic consistent, optimal edges progress, for every single/double "
+                "change of 40 4-node worlds", workers=2,
+                subst=dsub("small", 4, 1, 1, "base", "tables", ctx.seed, 45, emit=False,
+                           invs="TypeOK HeuristicOK OptProgress AllChangesOK"))
+        ctx.tlc(DSPEC, DCFG, name="R1 DStarLite: the same for 20 2x3 grids", workers=2,
+                subst=dsub("grid", 0, 2, 3, "manhattan", "tables", ctx.seed, 20, emit=False,
+                           invs="TypeOK HeuristicOK OptProgress AllChangesOK"))
+    # quick: the table worlds are fixed (exhaustive over start/goal/steps/changes, cached); thorough: by seed
+    tseed = ctx.seed if thorough else 1
+    tplans = [("2x3 grids, base-world-distance heuristic", dsub("grid", 0, 2, 3, "base", "tables", tseed, 100 if thorough else 20)),
+              ("2x4 grids, Manhattan x min-cost heuristic", dsub("grid", 0, 2, 4, "manhattan", "tables", tseed, 20 if thorough else 4))]
+    if thorough:
+        tplans += [("3x3 grids, base-world-distance heuristic", dsub("grid", 0, 3, 3, "base", "tables", tseed, 12)),
+                   ("4-node worlds, base-world-distance heuristic", dsub("small", 4, 1, 1, "base", "tables", tseed, 150)),
+                   ("5-node worlds, base-world-distance heuristic", dsub("small", 5, 1, 1, "base", "tables", tseed, 20))]
+    for name, sb in tplans:
+        cases = ctx.gen(DSPEC, DCFG, subst=sb, name="R2 gen D* Lite tables: " + name)
+        ctx.replay(hb, "path-dstar-tables", cases, ["heur=spec"], name="R2 replay D* Lite scripts: " + name)
+
+    # spec->code, machine role: TLC explores every behaviour of the world/robot state machine with
+    # deliberate updates (raise an edge on the optimal plan, lower one off the plan); the planner's run
+    # must be a path of the printed state graph.
+    mplans = [("2x5 grids, base-world-distance heuristic", dsub("grid", 0, 2, 5, "base", "machine", ctx.seed,
+                                                             800 if thorough else 60, rounds=4, invs="TypeOK HeuristicOK OptProgress"))]
+    if thorough:
+        mplans += [("3x3 grids, Manhattan x min-cost heuristic", dsub("grid", 0, 3, 3, "manhattan", "machine", ctx.seed, 400,
+                                                                  rounds=3, invs="TypeOK HeuristicOK OptProgress")),
+                   ("4x4 grids, base-world-distance heuristic", dsub("grid", 0, 4, 4, "base", "machine", ctx.seed, 150,
+                                                                 rounds=5, invs="TypeOK HeuristicOK OptProgress"))]
+    for name, sb in mplans:
+        cases = ctx.gen(DSPEC, DCFG, subst=sb, name="R2 gen D* Lite state graph: " + name)
+        ctx.replay(hb, "path-dstar-machine", cases, ["heur=spec"], name="R2 replay D* Lite behaviours: " + name)
+
+    # code->spec: recorded histories judged by TLC (ShortestPathTrace.tla): random worlds with the null
+    # heuristic, and deliberate histories on grids with heuristics whose tables TLC validates
+    drecs = [("random worlds, null heuristic", "path-dstar",
+              ["worlds=%d" % (3000 if thorough else 200), "rounds=10", "maxn=10"], "dstar")]
+    for part in range(2 if thorough else 1):
+        drecs.append(("deliberate grid histories, spec-validated heuristics (part %d)" % part, "path-dstar-grid",
+                      ["hist=%d" % (6000 if thorough else 1000), "rounds=4", "part=%d" % part], "dstar-grid%d" % part))
+    for name, area, rargs, tag in drecs:
+        tr = os.path.join(ctx.work, tag + ".ndjson")
+        summ = ctx.record(hb, area, tr, rargs, name="R3 record D* Lite: " + name)
+        ok, st = ctx.validate(TSPEC, TCFG, tr, subst=dict(KNOWNCUT="FALSE"), name="R3 validate D* Lite: " + name)
+        if ok:
+            ctx.traces += summ.get("traces", 0)
+        else:
+            keep = os.path.join(ctx.work, "..", "..", "replays", "C13")
+            os.makedirs(keep, exist_ok=True)
+            dst = os.path.abspath(os.path.join(keep, "%s-seed%d.ndjson" % (tag, ctx.seed)))
+            shutil.copy(tr, dst)
+            ctx.violation("path:dstar-trace-rejected", st.get("detail", "")[:600],
+                          {"trace": dst, "spec": TSPEC, "cfg": dict(KNOWNCUT="FALSE")})
 
     ctx.assumptions += [
         "TLC/SANY and the CommunityModules Json module are trusted",
@@ -134,8 +186,10 @@ def run(ctx):
     return ctx.finish(
         rule="R2: one case = one graph with the complete expected answers of all routines, replayed on every "
              "container kind x id binding x view; non-trivial = the graph has at least one edge. "
-             "R3: one trace = one random graph with the logged answers of all routines, or one D* Lite world "
-             "history (Step / UpdateWorld rounds).",
+             "D* Lite R2: one case = one script (start, goal, k steps, one single or double cost change, steps to "
+             "the goal) on a spec-printed world, or one behaviour of the spec's state graph; non-trivial = at least one "
+             "Step before the update. R3: one trace = one random graph with the logged answers of all routines, or one "
+             "D* Lite history (Step / UpdateWorld rounds).",
         exhaustive=True)
 
 
